@@ -5,7 +5,7 @@ import os
 from .model import AnalysisError
 from .report import VERIF
 from .callgraph import closure
-from .rules import r1_resolve, r2_none, r3_ctor, r9_purity, r4_predicates, r5_arghandler, r6_dispatch, r7_binary, r8_accessors, r_list, r10_args, r11_symbolic, r16_tables, r15_closed, r14_interp, r18_shared, r19_angles, r20_shapes
+from .rules import r1_resolve, r2_none, r3_ctor, r9_purity, r4_predicates, r5_arghandler, r6_dispatch, r7_binary, r8_accessors, r_list, r10_args, r11_symbolic, r16_tables, r15_closed, r14_interp, r18_shared, r19_angles, r20_shapes, r21_explog
 
 _anch = None
 
@@ -501,6 +501,47 @@ def c02(run):
                        'equal their term tables including the cross-product operand order; the broadcasting helpers use both '
                        'operands in order (R7).' + NUMERIC_NOTE)
     run.trust(*STATIC_TRUST)
+
+
+def c03(run):
+    r21_explog.check_exp_dispatch(run)
+    r21_explog.check_log_general(run)
+    r21_explog.check_twist_pairs(run)
+    r21_explog.check_ginv(run)
+    r16_tables.check_trlog_dependence(run)
+    r16_tables.tables_frames(run)
+    r20_shapes.check_shapes(run, run.prog.analysed_functions())
+    r16_tables.check_routes(run, [
+        ('super_pose:SMPose.log', '2D logarithm of every element with the twist option', ['[trlog2(x, twist=twist) for x in self.data]'], 'any'),
+        ('super_pose:SMPose.log', '3D logarithm of every element with the twist option', ['[trlog(x, twist=twist) for x in self.data]'], 'any'),
+        ('base/transforms2d:trlog2', 'SE(2) logarithm as twist', ['vexa(logm(T))'], 'any'),
+        ('base/transforms2d:trlog2', 'SO(2) logarithm as twist', ['vex(logm(T))'], 'any'),
+        ('base/transforms2d:trlog2', 'matrix logarithm', ['logm(T)'], 'any'),
+        ('twist:Twist3.SE3', 'pose of a twist', ['SE3(self.exp())'], 'return'),
+        ('twist:Twist2.SE2', 'pose of a twist', ['SE2(self.exp())'], 'return'),
+        ('pose3d:SE3.Twist3', 'twist of a pose', ['Twist3(self.log(twist=True))'], 'return'),
+        ('pose2d:SE2.Twist2', 'twist of a pose', ['Twist2(self.log(twist=True))'], 'return'),
+    ], rule='R21')
+    r16_tables.tables_c18_exp(run) if hasattr(r16_tables, 'tables_c18_exp') else None
+    r10_args.run_r10(run, [run.prog.func(k) for k in ('twist:Twist3.exp', 'twist:Twist2.exp')])
+    _scope_rules(run, 'C03')
+    run.floor('R21', 30)
+    run.floor('R19', 3)
+    run.floor('R17', 4)
+    run.explanation = ('Exponential and logarithm, structural clauses only: (a) every documented argument form of SO3/SE3/SO2/SE2.Exp (algebra '
+                       'matrix, twist vector as list and as ndarray, sequence of twists) is pushed abstractly through the guards of the method '
+                       'and reaches the documented route (whole argument to trexp / one call per element); (b) the general branch of the SO(3) '
+                       'logarithm composed with Rodrigues\' formula is the identity term by term ((trace - 1)/2 = cos t, (R - R^T)/2 = sin t K), '
+                       'Rodrigues and the V integral of trexp/trexp2 equal their closed forms; (c) in every branch of trlog/trlog2 the twist=True '
+                       'result is the vee of the twist=False result; (d) the SE(3) logarithm is (S, Ginv t) with Ginv = I - S/2 + beta S S, S from '
+                       'the recursion on R, w = vex(S); (e) the half-turn branch reads off-diagonal entries (R17); (f) the class methods route to '
+                       'these functions with twist/check/units threaded and carry no hidden state. NOT decided: everything the property says '
+                       'about accuracy -- branch thresholds, behaviour near the identity and near a half turn, 1e-7 agreement, log(exp(S)) = S as '
+                       'numbers, the 2D logarithm delegated to scipy.')
+    run.trust(*STATIC_TRUST, 'scipy.linalg.logm for the 2D logarithm')
+
+
+CHECKS['C03'] = c03
 
 
 def c04(run):
